@@ -32,8 +32,8 @@ const (
 	classSSEDiffer  = "c32-sse-events-differ-from-queued-messages"
 	classHSDiffer   = "c32-http-stream-records-differ-from-queued-messages"
 	classPayload    = "c32-publication-payload-altered"
-	waitBound       = 20 * time.Second
-	requestDeadline = 60 * time.Second
+	waitBound       = 45 * time.Second
+	requestDeadline = 150 * time.Second
 )
 
 type logged struct {
@@ -132,6 +132,29 @@ func (s *scen) newPayload(bin bool, noCR bool) *payload {
 	}
 	s.pays[p.ID] = p
 	return p
+}
+
+// A defect that fires in a large share of the cases (a known finding) must not exhaust the
+// runner's per-process violation budget (a child stops after 50 violations) and so truncate the
+// run: every class is reported at most reportCap times per child process, later occurrences are
+// only counted.
+const reportCap = 3
+
+var (
+	reportMu    sync.Mutex
+	reportCount = map[string]int{}
+)
+
+func report(c *kit.Case, class, msg string, detail any) {
+	reportMu.Lock()
+	reportCount[class]++
+	n := reportCount[class]
+	reportMu.Unlock()
+	c.Count("violations_observed_"+class, 1)
+	if n > reportCap {
+		return
+	}
+	c.Violation(class, msg, detail)
 }
 
 func waitFor(cond func() bool, d time.Duration) bool {
@@ -645,24 +668,24 @@ func (s *scen) evaluate(cs *connSpec) string {
 		for _, e := range evs {
 			recs = append(recs, record{Data: e.Data, End: e.End})
 			if e.Type != "" || e.ID != "" {
-				c.Violation(differ, "SSE event carries an event type or id the server never queued", detail(map[string]any{"type": e.Type, "id": e.ID}))
+				report(c, differ, "SSE event carries an event type or id the server never queued", detail(map[string]any{"type": e.Type, "id": e.ID}))
 			}
 		}
 		base["sse_ignored_field_lines"] = st.IgnoredFields
 		if (st.PendingAtEOF || st.PartialLine) && !cs.cut {
-			c.Violation(differ, "SSE stream ends inside an event (no terminating blank line): a conforming parser discards it", detail(map[string]any{"tail": clip(cs.body[max(0, len(cs.body)-120):], 120)}))
+			report(c, differ, "SSE stream ends inside an event (no terminating blank line): a conforming parser discards it", detail(map[string]any{"tail": clip(cs.body[max(0, len(cs.body)-120):], 120)}))
 		}
 	case "hs_json":
 		var partial bool
 		recs, partial = parseNDJSON(cs.body)
 		if partial && !cs.cut {
-			c.Violation(differ, "HTTP stream ends inside a record (no terminating newline)", detail(map[string]any{"tail": clip(cs.body[max(0, len(cs.body)-120):], 120)}))
+			report(c, differ, "HTTP stream ends inside a record (no terminating newline)", detail(map[string]any{"tail": clip(cs.body[max(0, len(cs.body)-120):], 120)}))
 		}
 	case "hs_proto":
 		var problem string
 		recs, problem = parseVarintStream(cs.body)
 		if problem != "" && !cs.cut {
-			c.Violation(differ, "HTTP stream (Protobuf) is not a sequence of varint-length records: "+problem, detail(nil))
+			report(c, differ, "HTTP stream (Protobuf) is not a sequence of varint-length records: "+problem, detail(nil))
 		}
 	}
 
@@ -705,12 +728,12 @@ func (s *scen) evaluate(cs *connSpec) string {
 				c.Count("sse_events_broken_by_cr", 1)
 				if !crReported {
 					crReported = true
-					c.Violation(classSSECR, fmt.Sprintf("%s: event %d received by a conforming EventSource parser is not the queued message: the queued JSON contains a bare CR (0x0D) between tokens, which ends the SSE line", cs.kind, i),
+					report(c, classSSECR, fmt.Sprintf("%s: event %d received by a conforming EventSource parser is not the queued message: the queued JSON contains a bare CR (0x0D) between tokens, which ends the SSE line", cs.kind, i),
 						detail(map[string]any{"index": i, "queued": clip(want, 400), "event_data": clip(got, 400), "frame_type": log[i].FrameType}))
 				}
 				continue
 			}
-			c.Violation(differ, fmt.Sprintf("%s: record %d differs from the message queued at that position", cs.kind, i),
+			report(c, differ, fmt.Sprintf("%s: record %d differs from the message queued at that position", cs.kind, i),
 				detail(map[string]any{"index": i, "queued": clip(want, 400), "received": clip(got, 400), "frame_type": log[i].FrameType}))
 			break
 		}
@@ -731,7 +754,7 @@ func (s *scen) evaluate(cs *connSpec) string {
 			}
 		}
 		if err != nil {
-			c.Violation(differ, fmt.Sprintf("%s: record %d does not decode to one protocol Reply: %v", cs.kind, i, err), detail(map[string]any{"index": i, "received": clip(got, 400)}))
+			report(c, differ, fmt.Sprintf("%s: record %d does not decode to one protocol Reply: %v", cs.kind, i, err), detail(map[string]any{"index": i, "received": clip(got, 400)}))
 			break
 		}
 		k := kindOf(rep)
@@ -741,7 +764,7 @@ func (s *scen) evaluate(cs *connSpec) string {
 	}
 	if len(recs) != len(log) && !(cs.cut && len(recs) < len(log)) {
 		// with a CR-broken event the count still matches (the rest of the line is an ignored field)
-		c.Violation(differ, fmt.Sprintf("%s: client parsed %d records, server queued %d messages", cs.kind, len(recs), len(log)),
+		report(c, differ, fmt.Sprintf("%s: client parsed %d records, server queued %d messages", cs.kind, len(recs), len(log)),
 			detail(map[string]any{"records": len(recs), "first_unmatched_queued": firstAfter(log, n), "first_unmatched_received": firstRecAfter(recs, n)}))
 	}
 	if cs.sse() {
@@ -783,7 +806,7 @@ func (s *scen) checkPayloads(cs *connSpec, rep *protocol.Reply, idx int, detail 
 		}
 		s.c.Count("payloads_checked_against_publish_log", 1)
 		if !ok {
-			s.c.Violation(classPayload, fmt.Sprintf("%s: payload %s in %s (record %d) is not the payload that was published", cs.kind, id, where, idx),
+			report(s.c, classPayload, fmt.Sprintf("%s: payload %s in %s (record %d) is not the payload that was published", cs.kind, id, where, idx),
 				detail(map[string]any{"published": clip(p.Raw, 300), "received": clip(data, 300)}))
 		}
 	}
@@ -872,7 +895,8 @@ func TestC32(t *testing.T) {
 			"a standards-conforming SSE client is the WHATWG 'interpreting an event stream' algorithm (lines end with CRLF, LF or a lone CR); an HTTP-stream JSON client splits records at LF; a Protobuf one reads varint-length records",
 			"Node.OnTransportWrite reports every message handed to the transport, in hand-over order (ReplyWithoutQueue is not used: it writes from two goroutines)",
 			"JSON payloads are valid UTF-8 (RFC 8259); invalid UTF-8 inside strings is not generated",
-			"every connection is ended by a server-side disconnect, so the stream is complete when it ends; a stream that does not end within 20 s is inconclusive",
+			"each violation class is reported at most 3 times per child process (the rest is counted in violations_observed_<class>) so that a frequent known finding does not truncate the run",
+			"every connection is ended by a server-side disconnect, so the stream is complete when it ends; a stream that does not end within 45 s is inconclusive",
 			"a response that breaks off with a transport error (the handlers' 1 s write deadline on an overloaded machine) is compared as a prefix of the queued messages; a request that fails before any response exercises nothing and is only counted",
 			"batch sizes are measured server-side as records completed between two Flush calls of the http.ResponseWriter",
 		},
@@ -885,7 +909,7 @@ func TestC32(t *testing.T) {
 			"kind_connect", "kind_pub", "kind_join", "kind_leave", "kind_message", "kind_subscribe", "kind_unsubscribe", "kind_refresh", "kind_disconnect",
 			"batch_1", "batch_2_4", "batch_5_15", "recovered_publications_in_connect_reply", "payloads_checked_against_publish_log", "records_compared",
 		},
-		CaseTimeout: 150 * time.Second,
+		CaseTimeout: 300 * time.Second,
 		Run:         runCase,
 	})
 }
